@@ -231,6 +231,9 @@ fn run_batch(rs: &[usize], ds: &[usize], mode: Mode, alone_p: &[Vec<Option<PairR
         match parse_junit(&o.out) {
             Err(e) => acc.violate("junit-not-well-formed", format!("{}: {}", label, e), replay(&e)),
             Ok(cases) => {
+                for pb in junit_counter_problems(&o.out) {
+                    acc.violate("junit-counters", format!("{}: {}", label, pb), replay(&pb));
+                }
                 for (rp, rk) in rs.iter().enumerate() {
                     for (dp, dk) in ds.iter().enumerate() {
                         let want = match alone_s[*rk][*dk].as_ref().and_then(|x| x.0) {
